@@ -3,6 +3,7 @@ package db
 import (
 	"database/sql"
 	"os"
+	"strings"
 
 	_ "github.com/mattn/go-sqlite3"
 )
@@ -57,6 +58,13 @@ func (db *DB) init() error {
 
 	_, err = db.db.Exec(`CREATE TABLE IF NOT EXISTS "TS_Links" ("ParentAgentID" int, "LinkAgentID" int);`)
 	if err != nil {
+		return err
+	}
+
+	/* the path of the agent's process image is part of what operators are shown: it is
+	 * saved too (a database of an earlier version gets the column here, once) */
+	_, err = db.db.Exec(`ALTER TABLE "TS_Agents" ADD COLUMN "ProcessPath" text DEFAULT '';`)
+	if err != nil && !strings.Contains(err.Error(), "duplicate column name") {
 		return err
 	}
 
